@@ -20,6 +20,7 @@ import GE.Model.Rlm
 import GE.Model.ExprStr
 import GE.Model.BindingMap
 import GE.Model.CssIO
+import GE.Model.TagSemJson
 /-!
 Model driver: one request per line (`op TAB field…`), one answer line per request.
 Unknown ops answer `bad-op` (never defaulted).
@@ -76,6 +77,67 @@ partial def tlistOfSExps : List GE.Codec.SExp → Option TNodesList
   | .list (.atom "nodes" :: ns) :: r => do some (.cons (← tnodesOfSExps ns) (← tlistOfSExps r))
   | _ => none
 end
+
+/-! reader of the abstract template and the data of the `tagsem` op -/
+def parseSrcExpr (names : List String) (src : String) : Option GE.Expr :=
+  let numOf (t : String) : GE.Expr :=
+    if t.toList.all Char.isDigit && !t.isEmpty && !(t.length > 1 && t.toList.head? = some '0') then
+      (match t.toNat? with
+       | some v => if v < 2 ^ 63 then .int v else .float t
+       | none => .float t)
+    else .float t
+  let cs := chars src
+  match GE.Parse.lex (cs.length + 1) cs with
+  | none => none
+  | some ts => (GE.Parse.parseExpr ⟨numOf⟩ (4 * ts.length + 40) ts).map (GE.SubExpr.convertScopes names)
+
+open GE.TagSem in
+def teOfSExp (names : List String) : GE.Codec.SExp → Option TE
+  | .list [.atom "e", .str src] => (parseSrcExpr names src).map .expr
+  | .list (.atom "mix" :: ps) => do
+    let parts ← ps.mapM fun (p : GE.Codec.SExp) => match p with
+      | .list [.atom "s", .str t] => some (Sum.inl t)
+      | .list [.atom "e", .str src] => (parseSrcExpr names src).map Sum.inr
+      | _ => none
+    some (.mix parts)
+  | _ => none
+
+open GE.TagSem in
+mutual
+partial def tplOfSExp (names : List String) : GE.Codec.SExp → Option (Tpl TE)
+  | .list [.atom "text", v] => (teOfSExp names v).map .text
+  | .list (.atom "elem" :: .str tag :: .list (.atom "attrs" :: as) :: ch) => do
+    let attrs ← as.mapM fun (a : GE.Codec.SExp) => match a with
+      | .list [.str n, v] => (teOfSExp names v).map fun te => (n, te)
+      | _ => none
+    some (.elem tag attrs (← tplsOfSExps names ch))
+  | .list (.atom "block" :: ch) => (tplsOfSExps names ch).map .block
+  | .list (.atom "cond" :: brs) => (branchesOfSExps names brs).map .cond
+  | .list (.atom "for" :: v :: .str item :: .str index :: ch) => do
+    some (.loop (← teOfSExp names v) (← tplsOfSExps (names ++ [item, index]) ch))
+  | _ => none
+partial def tplsOfSExps (names : List String) : List GE.Codec.SExp → Option (Tpls TE)
+  | [] => some .nil
+  | x :: r => do some (.cons (← tplOfSExp names x) (← tplsOfSExps names r))
+partial def branchesOfSExps (names : List String) : List GE.Codec.SExp → Option (Branches TE)
+  | [] => some (.last false .nil)
+  | [.list (.atom "else" :: ch)] => (tplsOfSExps names ch).map (.last true)
+  | .list (.atom "br" :: c :: ch) :: r => do some (.cons (← teOfSExp names c) (← tplsOfSExps names ch) (← branchesOfSExps names r))
+  | _ => none
+end
+
+open GE.TagSem in
+partial def jOfSExp : GE.Codec.SExp → Option J
+  | .list [.atom "null"] => some .null
+  | .list [.atom "undef"] => some .undef
+  | .list [.atom "bool", .atom b] => some (.bool (b == "true"))
+  | .list [.atom "num", .atom n] => n.toInt?.map .num
+  | .list [.atom "str", .str s] => some (.str s)
+  | .list (.atom "arr" :: xs) => (xs.mapM jOfSExp).map .arr
+  | .list (.atom "obj" :: kvs) => (kvs.mapM fun (kv : GE.Codec.SExp) => match kv with
+      | .list [.str k, v] => (jOfSExp v).map fun j => (k, j)
+      | _ => none).map .obj
+  | _ => none
 
 def parseCond (f : String) : Option GE.TagGen.CondItem :=
   if f == "else" then some .els
@@ -251,6 +313,22 @@ def step (fs : List String) : String :=
       | some j => s!"{j}:{showM (ms[i]?.getD .none)}"
       | none => "new"
     esc (String.intercalate " " items) ++ "\t" ++ esc (String.intercalate "\x01" (GE.Rlm.uniq nk))
+  | "tagsem" :: tsx :: d0 :: steps =>
+    -- abstract template + data history: the node tree after creation and after every update (guards not evaluated: every binding is
+    -- re-evaluated), each node with the step that created it
+    match parseSExp tsx, parseSExp d0 with
+    | some (.list (.atom "tmpl" :: ns)), some d0x =>
+      match tplsOfSExps [] ns, jOfSExp d0x, steps.mapM (fun x => (parseSExp x).bind jOfSExp) with
+      | some ts, some D0, some Ds =>
+        let t : GE.TagSem.Tpl GE.TagSem.TE := .block ts
+        let n0 := GE.TagSem.create GE.TagSem.jsonSem 0 D0 [] t
+        let (_, _, outs) := Ds.foldl (fun (st : Nat × GE.TagSem.Node GE.TagSem.J × List String) D =>
+          let (now, n, acc) := st
+          let n' := GE.TagSem.update GE.TagSem.jsonSem now D [] () [] t n
+          (now + 1, n', acc ++ [if n'.hasUnsup then "unsupported" else n'.print])) (1, n0, [if n0.hasUnsup then "unsupported" else n0.print])
+        "\t".intercalate (outs.map esc)
+      | _, _, _ => "bad-tree"
+    | _, _ => "bad-sexp"
   | ["mix_print", pieces] =>
     -- value printer model on pieces `T…` / `B…` separated by U+0001
     let ps : List GE.Mix.Piece := (if pieces.isEmpty then [] else pieces.splitOn "\x01").filterMap fun x =>
